@@ -28,7 +28,7 @@ type c10op struct {
 	kind byte // 't' template, 'u' replacement template, 'b' bad template, 'd' data, 'a' advance
 	dom  uint32
 	id   uint16
-	d    int
+	d    int // advance, in milliseconds
 }
 
 func c10Ops(domains []uint32) []c10op {
@@ -39,7 +39,8 @@ func c10Ops(domains []uint32) []c10op {
 			ops = append(ops, c10op{n("T"), 't', d, id, 0}, c10op{n("T'"), 'u', d, id, 0}, c10op{n("Bad"), 'b', d, id, 0}, c10op{n("Data"), 'd', d, id, 0})
 		}
 	}
-	ops = append(ops, c10op{"Adv(1)", 'a', 0, 0, 1}, c10op{"Adv(2)", 'a', 0, 0, 2})
+	// (milliseconds) half the lifetime, the lifetime, and just short of it
+	ops = append(ops, c10op{"Adv(1)", 'a', 0, 0, 1000}, c10op{"Adv(2)", 'a', 0, 0, 2000}, c10op{"Adv(1.95)", 'a', 0, 0, 1950})
 	return ops
 }
 
@@ -114,7 +115,7 @@ func c10Scenario(ops []c10op, hist []int, encrypted ...bool) *vsched.Scenario {
 		for step, oi := range hist {
 			op := ops[oi]
 			if op.kind == 'a' {
-				vsched.Advance(time.Duration(op.d) * time.Second)
+				vsched.Advance(time.Duration(op.d) * time.Millisecond)
 				continue
 			}
 			msg := c10msg(op)
@@ -467,7 +468,7 @@ func runC10(tier, replay string) int {
 	ev.Coverage = common.Coverage{
 		"states": tot.Points, "transitions": tot.Steps, "traces_validated_against_impl": tot.Execs, "samples": samples,
 		"evaluations": tot.Execs, "distinct_nontrivial": tot.Histories,
-		"rule":       fmt.Sprintf("every history (reduced by id/domain symmetry) up to depth %d over {template, replacement template, bad template, data} x 2 ids x 1 domain + Adv(1), Adv(2) (and to a smaller depth over 2 domains) on a UDP collector with TTL=2 built through the normal constructor (its clock virtualised by the rewrite); for each history every interleaving of timer firings and expiry callbacks with the driver is explored up to 3 preemptions (quick); thorough explores the quick tier's histories (depth <= 4, two domains <= 3) without a preemption bound (a history with more than 150000 schedules falls back to a completed bound 4 and is listed in caps_hit) and the next depth at bound 3; oracle: data accepted while now < lastRefresh+TTL, rejected when no template is in force, stored <=> alive at quiescence, and at every scheduling point with the lock free each stored template has an armed timer or a callback in flight and no removed template keeps an armed timer; in-model data-race detection. distinct_nontrivial = histories explored; states = choice points", depth),
+		"rule":       fmt.Sprintf("every history (reduced by id/domain symmetry) up to depth %d over {template, replacement template, bad template, data} x 2 ids x 1 domain + Adv(1), Adv(2), Adv(1.95) (and to a smaller depth over 2 domains) on a UDP collector with TTL=2 built through the normal constructor (its clock virtualised by the rewrite); for each history every interleaving of timer firings and expiry callbacks with the driver is explored up to 3 preemptions (quick); thorough explores the quick tier's histories (depth <= 4, two domains <= 3) without a preemption bound (a history with more than 150000 schedules falls back to a completed bound 4 and is listed in caps_hit) and the next depth at bound 3; oracle: data accepted while now < lastRefresh+TTL, rejected when no template is in force, stored <=> alive at quiescence, and at every scheduling point with the lock free each stored template has an armed timer or a callback in flight and no removed template keeps an armed timer; in-model data-race detection. distinct_nontrivial = histories explored; states = choice points", depth),
 		"exhaustive": len(tot.Capped) == 0, "histories": tot.Histories, "max_choice_depth": tot.MaxDepth, "caps_hit": tot.Capped,
 	}
 	ev.Assumptions = []string{"at now >= lastRefresh+TTL a data set may be accepted or refused until the expiry has been processed", "timer semantics follow the Go documentation (Stop/Reset return values, callback in a fresh goroutine)"}
